@@ -820,6 +820,19 @@ inline void runC14(Ctx &c)
                 c.nontrivial(mix64(hashProblem(p), relation));
             if (idx < 1)
                 c.wantSample();
+            // translation by an exactly representable offset of exactly representable waypoints: the waypoint differences of
+            // the two problems are bitwise the same, so nothing but the constant coefficients may move, at any offset size
+            const bool exactTr = relation == 1 && r.coin(0.4);
+            double exactUnit = 0;
+            if (exactTr)
+            {
+                double pm = std::max(p.P.cwiseAbs().maxCoeff(), 1e-3);
+                exactUnit = std::ldexp(1.0, (int)std::ceil(std::log2(pm)));
+                const double g = std::ldexp(exactUnit, -20);
+                for (int i = 0; i <= p.N; ++i)
+                    for (int j = 0; j < p.dim; ++j)
+                        p.P(i, j) = std::nearbyint(p.P(i, j) / g) * g;
+            }
             auto s = makeSplineDur(p);
             MatrixXd C = s->coeffs();
             if (!c.require("C14.shape", C.rows() == nc * p.N && C.cols() == p.dim, gkey(p, "shape")))
@@ -891,6 +904,8 @@ inline void runC14(Ctx &c)
                 for (int j = 0; j < p.dim; ++j)
                 {
                     w(j) = (r.coin() ? std::ldexp(1.0, r.range(-2, 6)) : r.uni(-50, 50)) * std::max(S, 1e-3) * (r.coin() ? 1 : -1);
+                    if (exactTr) // far-away frames (UTM/ECEF-like): up to 2^31 units, still exact on the 2^-20 grid
+                        w(j) = std::ldexp(exactUnit, r.range(4, 31)) * (r.coin() ? 1 : -1) + std::ldexp(exactUnit, -20) * (double)r.range(-1000, 1000);
                     wmax = std::max(wmax, std::fabs(w(j)));
                 }
                 for (int i = 0; i <= p.N; ++i)
@@ -905,6 +920,16 @@ inline void runC14(Ctx &c)
                 // translation perturbs the waypoint differences by rounding of size eps*|P+w|; allow for it
                 double pmax = p.P.cwiseAbs().maxCoeff() + wmax;
                 double tol = 1e-8 * (1.0 + pmax / std::max(S, 1e-300));
+                if (exactTr)
+                {
+                    bool exact = true;
+                    for (int i = 0; i <= p.N && exact; ++i)
+                        for (int j = 0; j < p.dim && exact; ++j)
+                            exact = (LD)q.P(i, j) == (LD)p.P(i, j) + (LD)w(j);
+                    if (exact)
+                        tol = 3e-11;
+                    c.event(exact ? "relation.translation_exact" : "relation.translation_exact_skipped");
+                }
                 c.check("C14.translation.coeffs", coeffError(q, Cq, Cexp, 1e-3) / tol, 1.0, gkey(p, "translation"));
                 c.check("C14.translation.energy_unchanged", scaledDiff(sq->energy(), E, (double)Eabs) / tol, 1.0, gkey(p, "translation"));
                 c.check("C14.translation.gradients_unchanged", std::max(gradsRel(sq->energyGrad(false), eg, egS), gradsRel(sq->propagate(u.gC, u.gT, false), pg, pgS)) / tol, 1.0, gkey(p, "translation"));
